@@ -367,6 +367,69 @@ func genC19() (string, []string) {
 		verifAssert(rets[0].num == float64(mark+1) && rets[1].num == float64(7*(a[0]+a[1])) && rets[2].num == float64(mark), "C19/nested/values")
 	}
 `)
+	// re-entrancy: a native calls back into the script, the script re-enters the SAME native (other arguments) before
+	// the outer invocation has read its own args / vargs; both invocations must have seen exactly what was passed
+	for _, form := range []string{"variadic", "fixed"} {
+		sig, reg, inner, outer, nOuter, nInner := "", "", "", "", 0, 0
+		if form == "variadic" {
+			sig = "func(v *VM, args []Value, vargs ...Value) []Value"
+			reg = "NewFunc(2, 1, "
+			inner, outer = "nat(x+1, 100, 200)", "nat(a0, a1, a2, a3)"
+			nOuter, nInner = 4, 3
+		} else {
+			sig = "func(v *VM, args []Value) []Value"
+			reg = "NewFunc(3, 1, "
+			inner, outer = "nat(x+1, 100, 200)", "nat(a0, a1, a2)"
+			nOuter, nInner = 3, 3
+		}
+		vuse := "\t\tvar vargs []Value\n"
+		if form == "variadic" {
+			vuse = ""
+		}
+		for _, via := range []string{"Call", "Func"} {
+			callback := `v.Call("main.leaf", 1, args[0])`
+			if via == "Func" {
+				callback = `v.Func(v.Get("main.leaf"), 1, args[0])`
+			}
+			id := "C19/reentrant/" + form + "/" + via
+			add("reentrant_"+form+"_"+via, prelude(3, 0)+fmt.Sprintf(`	depth := 0
+	var outerSaw, innerSaw []Value
+	vm.Set("main.nat", %[1]s%[2]s {
+%[3]s		depth++
+		if depth == 1 {
+			rets, err := %[4]s
+			if err != nil || len(rets) != 1 {
+				panic("nested call failed")
+			}
+			outerSaw = append(outerSaw, args...)
+			outerSaw = append(outerSaw, vargs...)
+			depth--
+			return []Value{rets[0]}
+		}
+		innerSaw = append(innerSaw, args...)
+		innerSaw = append(innerSaw, vargs...)
+		depth--
+		return []Value{Int32(7)}
+	}))
+	if _, err := verifEval(vm, verifMkFS(nil), "func leaf(x int) int { return %[5]s + 1 }\nfunc g(a0, a1, a2, a3 int) (int, int) { return %[6]s, a3 }", 0); err != nil {
+		verifAssert(false, "%[7]s/eval")
+		return
+	}
+	rets, err := vm.Call("main.g", 2, Int32(a[0]), Int32(a[1]), Int32(a[2]), Int32(a[3]))
+	verifAssert(err == nil && len(rets) == 2, "%[7]s/outcome")
+	if err == nil && len(rets) == 2 {
+		verifAssert(rets[0].num == 8 && rets[1].num == float64(a[3]), "%[7]s/results")
+	}
+	verifAssert(len(outerSaw) == %[8]d && len(innerSaw) == %[9]d, "%[7]s/argument-counts")
+	for i := 0; i < %[8]d && i < len(outerSaw); i++ {
+		verifAssert(outerSaw[i].num == float64(a[i]), "%[7]s/outer-invocation-sees-its-own-arguments")
+	}
+	if len(innerSaw) == 3 {
+		verifAssert(innerSaw[0].num == float64(a[0]+1) && innerSaw[1].num == 100 && innerSaw[2].num == 200, "%[7]s/inner-invocation-sees-its-own-arguments")
+	}
+`, reg, sig, vuse, callback, inner, outer, id, nOuter, nInner))
+		}
+	}
 	return sb.String(), names
 }
 
